@@ -317,6 +317,10 @@ def run(ctx):
     for c in ("10", "01", "11", "20u"):
         ctx.mc("DaskChunks", f"MC_Dask_{c}.cfg", workers=4)
     ctx.mc("DaskChunks", "MC_Dask_20.cfg", workers=4, expect_violation="ResultOK")
+    # the dispatcher's choice of dask mode / overlap wrapper per axis (anchor grid.py:650-683)
+    for op in ("stencil", "cumsum"):
+        ctx.mc("DaskDispatch", f"MC_DaskDispatch_code_{op}.cfg", workers=2)
+    ctx.mc("DaskDispatch", "MC_DaskDispatch_overlap-everywhere_stencil.cfg", workers=2, expect_violation="RefusalExact")
     rng = random.Random(ctx.seed * 141650939 + 6)
     cases = gen_cases(rng, thorough)
     recs = ctx.pmap(execute, cases, chunksize=4)
